@@ -1633,6 +1633,17 @@ func (self *Fork) expandForkFromRef(must bool, i int,
 	return self.expandForkFromObj(i, part, split, obj, ref, result)
 }
 
+// ownPart replaces the given part of this fork's id with a private copy.
+//
+// Until it is expanded, a fork shares its parts with the other forks of the
+// node and with the node's table of parts (which getParts consults), so a
+// part must not be edited in place.
+func (self *Fork) ownPart(i int, part *ForkSourcePart) *ForkSourcePart {
+	pc := *part
+	self.forkId[i] = &pc
+	return &pc
+}
+
 func (self *Fork) expandForkFromObj(
 	i int, part *ForkSourcePart,
 	split *syntax.SplitExp,
@@ -1640,11 +1651,7 @@ func (self *Fork) expandForkFromObj(
 	ref fmt.GoStringer,
 	result []ForkId) ([]ForkId, error) {
 	if obj == nil {
-		if len(self.node.forks)-1 > self.index {
-			pc := *part
-			part = &pc
-			self.forkId[i] = part
-		}
+		part = self.ownPart(i, part)
 		// The part may be shared with, and carry the range of, a fork
 		// which was already expanded.  A null source has no elements.
 		if split.Source.CallMode() == syntax.ModeMapCall {
@@ -1673,21 +1680,13 @@ func (self *Fork) expandForkFromObj(
 			}
 		}
 		if n == 0 {
-			if len(self.node.forks)-1 > self.index {
-				pc := *part
-				part = &pc
-				self.forkId[i] = part
-			}
+			part = self.ownPart(i, part)
 			part.Id = emptyFork{}
 			self.updateId(self.forkId)
 			self.writeDisable()
 			return nil, nil
 		} else if n == 1 {
-			if len(self.node.forks)-1 > self.index {
-				pc := *part
-				part = &pc
-				self.forkId[i] = part
-			}
+			part = self.ownPart(i, part)
 			part.Id = arrayIndexFork(0)
 			if self.forkId[i] != part {
 				panic("not editing the right part")
@@ -1741,17 +1740,14 @@ func (self *Fork) expandForkFromObj(
 			}
 		}
 		if len(keys) == 0 {
-			if len(self.node.forks)-1 > self.index {
-				pc := *part
-				part = &pc
-				self.forkId[i] = part
-			}
+			part = self.ownPart(i, part)
 			part.Id = emptyFork{}
 			self.updateId(self.forkId)
 			self.writeDisable()
 			return nil, nil
 		}
 		if len(keys) == 1 {
+			part = self.ownPart(i, part)
 			part.Id = mapKeyFork(keys[0])
 			self.updateId(self.forkId)
 			return nil, nil
